@@ -112,6 +112,11 @@ func main() {
 			}
 		}
 	}
+	if os.Getenv("VERIF_GATE") != "" && fl == nil {
+		if cl := gateClass(joined); cl != "" && strings.Contains(","+os.Getenv("VERIF_GATE_CLASSES")+",", ","+cl+",") {
+			runGated(cl, args, &rec) // returns only when no controller answers
+		}
+	}
 	cmd := exec.Command(realGit, args...)
 	cmd.Stderr = os.Stderr
 	cmd.Stdin = os.Stdin
